@@ -3,6 +3,7 @@ import Proofs.Gen
 #print axioms Xsel.C08.handler_table
 #print axioms Xsel.C08.grammar_table
 #print axioms Xsel.C08.left_associative_levels
+#print axioms Xsel.Gen.no_shared_writes
 #print axioms Xsel.Gen.handlers_agree
 #print axioms Xsel.Gen.productions_agree
 #print axioms Xsel.Gen.no_dropped_symbol
